@@ -1,2 +1,67 @@
-(* C04: statements only; theorems are added as the model of the anchored mechanism is proved *)
-From GGRS Require Import Base.
+(* C04 — speculation is bounded by the prediction window; lockstep never speculates.
+   Statements only (same model and conventions as props/C02.v). *)
+From GGRS Require Import Base Consts Queue Sync P2P Session SessionProofs.
+Open Scope Z_scope.
+
+(* Every LoadGameState of every call names a frame at most max_prediction frames behind the frame
+   the game is at, for every reachable state and every operation (no assert firing is the premise:
+   sstep = Ok). *)
+Theorem C04_loads_inside_window :
+  forall (predict : Z -> Z) (p : p2p) (op : sop) (sr : sres) (g : game) (w : Z),
+  sstep predict p op = Ok sr -> JI w p g ->
+  forall f, In (RLoad f) (o_requests (sr_out sr)) -> s_current (ps_sync p) - w <= f < s_current (ps_sync p).
+Proof.
+  intros predict p op sr g w H J f Hin.
+  destruct (sstep_exec predict p op sr g w H J) as (_ & _ & _ & _ & A & _).
+  exact (A (RLoad f) Hin).
+Qed.
+
+(* A new frame c is simulated (current_frame() goes up) only as the last request of the call and only
+   if it lies inside the window of the newest frame cf for which every connected player's input is
+   held (cf = confirmed_frame of the connection statuses at that moment; cf = -1: nothing held):
+     lockstep (w = 0):  c <= cf;      rollback:  c - cf < w   (c < w when nothing is held). *)
+Theorem C04_speculation_bounded :
+  forall (predict : Z -> Z) (p p' : p2p) (o : pout) (r : apires) (g : game) (w : Z),
+  advance predict p = Ok (p', o, r) -> JI w p g ->
+  s_current (ps_sync p') = s_current (ps_sync p) + 1 ->
+  (exists ins R0, o_requests o = R0 ++ [RAdvance ins]) /\
+  exists cf, (if w =? 0 then s_current (ps_sync p) <= cf
+              else if cf <? 0 then s_current (ps_sync p) < w else s_current (ps_sync p) - cf < w) /\
+             (exists q, confirmed_frame q = Ok cf /\ (w = 0 -> ps_status q = ps_status p')).
+Proof.
+  intros predict p p' o r g w H J Hadv.
+  destruct (advance_exec predict p p' o r g w H J) as (_ & _ & _ & _ & _ & _ & _ & _ & A).
+  exact (A Hadv).
+Qed.
+
+(* Lockstep: never SaveGameState / LoadGameState, every AdvanceFrame carries only Confirmed or
+   Disconnected inputs, and a call either simulates exactly one frame or leaves current_frame()
+   unchanged (a stalled call emits nothing). *)
+Theorem C04_lockstep :
+  forall (predict : Z -> Z) (p : p2p) (op : sop) (sr : sres) (g : game),
+  sstep predict p op = Ok sr -> JI 0 p g ->
+  no_save_load (o_requests (sr_out sr)) /\
+  (s_current (ps_sync (sr_state sr)) = s_current (ps_sync p) \/
+   (op = SAdvance /\ s_current (ps_sync (sr_state sr)) = s_current (ps_sync p) + 1)).
+Proof.
+  intros predict p op sr g H J.
+  destruct (sstep_exec predict p op sr g 0 H J) as (_ & _ & _ & A & _ & B).
+  split; [exact (B eq_refl)|exact A].
+Qed.
+
+Theorem C04_lockstep_stall_emits_nothing :
+  forall (predict : Z -> Z) (p p' : p2p) (o : pout) (r : apires) (g : game),
+  advance predict p = Ok (p', o, r) -> JI 0 p g ->
+  (forall ins, ~ In (RAdvance ins) (o_requests o)) -> s_current (ps_sync p') = s_current (ps_sync p).
+Proof.
+  intros predict p p' o r g H J Hno.
+  destruct (advance_exec predict p p' o r g 0 H J) as (_ & _ & _ & [A|A] & _ & _ & _ & _ & B); [exact A|].
+  destruct (B A) as ((ins & R0 & E) & _). exfalso. apply (Hno ins). rewrite E. apply in_or_app. right. left. reflexivity.
+Qed.
+
+(* non-vacuity: a starved peer stops after w frames (window 2, remote silent) *)
+Example C04_demo :
+  exists p outs, srun (fun x => x) (session_start 2 2 false 0 [KLocal; KRemote 0] [[1]] 0)
+                   [SLocal 0 1; SAdvance; SLocal 0 1; SAdvance; SLocal 0 1; SAdvance; SLocal 0 1; SAdvance] = Ok (p, outs) /\
+                 s_current (ps_sync p) = 2.
+Proof. eexists. eexists. split; vm_compute; reflexivity. Qed.
